@@ -115,12 +115,17 @@ def drive(tier):
                 seq.append(r.choice(datas[:10]) if r.random() < 0.5 else bytes(r.getrandbits(8) for _ in range(r.randrange(0, 90))))
         seqs.append(seq)
     for seq in seqs:
-        how = len(R.recs) % 4
+        how = len(R.recs) % 5
 
         def build():
-            # the token sequence handed over as a list, a tuple, a one-shot iterator or a generator
-            src = seq if how == 0 else tuple(seq) if how == 1 else iter(seq) if how == 2 else (t for t in seq)
-            sc = CScript(src)
+            # the token sequence handed over as a list, a tuple, a one-shot iterator or a generator - or appended one by one with +
+            if how == 4:
+                sc = CScript()
+                for t_ in seq:
+                    sc = sc + t_
+            else:
+                src = seq if how == 0 else tuple(seq) if how == 1 else iter(seq) if how == 2 else (t for t in seq)
+                sc = CScript(src)
             it = list(sc)
             return {"v": b2l(sc), "iter": [tok_json(t) for t in it], "rebuilt": b2l(CScript(iter(it)))}
         k, v = call(build)
